@@ -83,6 +83,7 @@ type llWriter struct {
 	script []any
 	i      int
 	taken  []byte
+	shy    bool // it took less than it was offered, or failed, at least once
 }
 
 func (w *llWriter) Write(p []byte) (int, error) {
@@ -93,6 +94,9 @@ func (w *llWriter) Write(p []byte) (int, error) {
 	}
 	m := vsup.Amount(kind, len(p), w.h.scale)
 	w.taken = append(w.taken, p[:m]...)
+	if m < len(p) || e == "ERR" {
+		w.shy = true
+	}
 	if e == "ERR" {
 		return m, errScripted
 	}
@@ -263,6 +267,9 @@ func (h *llGhost) apply(e vsup.Edge, to vsup.State) {
 		if i := q.IsPrefix(wr.taken); i >= 0 {
 			h.viol(op, "content", fmt.Sprintf("WriteTo: byte %d handed to the writer is not the queue's", i))
 			return
+		}
+		if B := q.Len(); !wr.shy && B > 0 && (len(wr.taken) != B || err != nil) {
+			h.viol(op, "incomplete", fmt.Sprintf("WriteTo to a writer that accepts everything moved %d of %d buffered bytes (err %v)", len(wr.taken), B, err))
 		}
 		q.Drop(len(wr.taken))
 		if int(n) != vsup.Int(ret["n"])*h.scale || errClass(err) != vsup.Str(ret["err"]) {
